@@ -9,7 +9,7 @@ import anyio
 
 from ..explore import E1Check
 
-ACTIONS = ("cancel", "none", "sync", "async", "sync-raise", "async-raise", "sync-base")
+ACTIONS = ("cancel", "none", "sync", "async", "sync-raise", "async-raise", "sync-base", "sync-aw")
 BODIES = ("gate-end", "stop-event", "shielded", "crash", "forever")
 
 
@@ -33,7 +33,7 @@ def valid(action: str, body: str) -> bool:
         return body in ("gate-end", "shielded", "forever", "stop-event")
     if action == "none":
         return body == "gate-end"
-    if action in ("sync", "async"):
+    if action in ("sync", "async", "sync-aw"):
         return body == "stop-event"
     # raising callables fall back to cancellation
     return body in ("stop-event", "shielded")
@@ -85,6 +85,8 @@ class C08(E1Check):
                         if a.split(":")[1] not in ("cancel", "sync") or b.split(":")[1] not in ("cancel", "async-raise"):
                             continue
                     progs.append({"owner": owner, "seq": list(seq)})
+                    if n <= 2 and ns == 1:
+                        progs.append({"owner": owner, "seq": list(seq), "inner": True})
         return progs
 
     def bound(self, tier: str, program: Any) -> int:
@@ -165,6 +167,13 @@ class C08(E1Check):
                     log("action", label)
                     await anyio.lowlevel.checkpoint()
                     stop.set()
+            elif action == "sync-aw":
+                async def _stop() -> None:
+                    log("action", label)
+                    stop.set()
+
+                def ta() -> Any:  # type: ignore[misc]
+                    return _stop()  # a plain callable that returns an awaitable
             elif action == "sync-raise":
                 def ta() -> None:  # type: ignore[misc]
                     log("action", label)
@@ -202,7 +211,13 @@ class C08(E1Check):
                     else:
                         _, action, body = item.split(":")
                         service, ta = make_service(lbl, action, body)
-                        await ctx.start_service_task(service, "svc" + lbl, teardown_action=ta)
+                        if program.get("inner"):
+                            # started on the owner while a deeper, short-lived context is current
+                            async with Context():
+                                await ctx.start_service_task(service, "svc" + lbl, teardown_action=ta)
+                            log("inner-left", lbl)
+                        else:
+                            await ctx.start_service_task(service, "svc" + lbl, teardown_action=ta)
                         log("reg", lbl, "S")
                 await env.gate("leave")
                 log("leaving")
@@ -289,6 +304,9 @@ class C08(E1Check):
                         fail("teardown-missing", f"teardown callback {k} never ran")
                     elif t < end or t < tdx:
                         fail("order", f"teardown callback {k} (registered before service task {lbl}) ran at {t}, the task ended at {end} and its context at {tdx}")
+            stopped = next((j for j, ev in enumerate(tr) if ev[1:2] == (lbl,) and (ev[0] == "action" or (ev[0] == "svc!" and ev[2] == "CancelledError"))), None)
+            if stopped is not None and leaving is not None and stopped < leaving:
+                fail("stopped-early", f"service task {lbl} was stopped (trace index {stopped}) before the teardown of its owning context began ({leaving})")
             running_at_teardown = leaving is not None and end > leaving
             acts = [j for j, ev in enumerate(tr) if ev[0] == "action" and ev[1] == lbl]
             cancelled = any(ev[0] == "svc!" and ev[1] == lbl and ev[2] == "CancelledError" for ev in tr)
